@@ -120,6 +120,34 @@ pub fn encode(set: &TileSet, layout: &Layout, path: &Path) -> Result<(), String>
 			tx.execute("INSERT INTO metadata (name, value) VALUES (?1, ?2)", params![k, v]).map_err(|e| e.to_string())?;
 		}
 	}
+	// the informative rows minzoom / maxzoom / bounds / center as other writers add them: exact,
+	// absent, or stale (levels were appended or removed later without touching the metadata)
+	let levels: Vec<u8> = set.tiles.iter().filter(|(_, b)| !b.is_empty()).map(|(c, _)| c.z).collect::<std::collections::BTreeSet<u8>>().into_iter().collect();
+	if let (Some(lo), Some(hi)) = (levels.first().copied(), levels.last().copied()) {
+		let (lo, hi) = (lo as i64, hi as i64);
+		let zooms: Option<(Option<i64>, Option<i64>)> = match (layout.seed >> 9) % 8 {
+			0 | 1 => None,
+			2 => Some((Some(lo), Some(hi))),
+			3 => Some((Some(lo + 1), Some(hi))),
+			4 => Some((Some(lo), Some(hi - 1))),
+			5 => Some((Some(hi), None)),
+			6 => Some((None, Some(lo))),
+			_ => Some((Some(0), Some(14))),
+		};
+		if let Some((a, b)) = zooms {
+			let (a, b) = (a.map(|v| v.clamp(0, 30)), b.map(|v| v.clamp(0, 30)));
+			if let Some(a) = a {
+				tx.execute("INSERT INTO metadata (name, value) VALUES ('minzoom', ?1)", params![a.to_string()]).map_err(|e| e.to_string())?;
+			}
+			if let Some(b) = b {
+				tx.execute("INSERT INTO metadata (name, value) VALUES ('maxzoom', ?1)", params![b.to_string()]).map_err(|e| e.to_string())?;
+			}
+			if (layout.seed >> 12) % 2 == 0 {
+				tx.execute("INSERT INTO metadata (name, value) VALUES ('bounds', '-1.5,-1.5,1.5,1.5')", []).map_err(|e| e.to_string())?;
+				tx.execute("INSERT INTO metadata (name, value) VALUES ('center', '0,0,3')", []).map_err(|e| e.to_string())?;
+			}
+		}
+	}
 	let mut tiles: Vec<(&Coord, &Vec<u8>)> = set.tiles.iter().filter(|(_, b)| !b.is_empty()).collect();
 	match layout.order {
 		1 => tiles.reverse(),
